@@ -184,7 +184,8 @@ def drive(fresh, steps, restarts, via, measure, feed=None, probe=None):
       else:
         completed, active = copy.deepcopy(feed[i])
       out_feed.append((copy.deepcopy(completed), copy.deepcopy(active)))
-      d.update(vza.CompletedTrials(completed), vza.ActiveTrials(active))
+      if not st.get('skip_update'):
+        d.update(vza.CompletedTrials(completed), vza.ActiveTrials(active))
       sug = list(d.suggest(st['count']))
       if feed is None:
         for s in sug:
@@ -234,8 +235,13 @@ def gen_steps(rng, nsteps, max_count=5, complete_all=False):
   for _ in range(nsteps):
     c = rng.randrange(1, max_count + 1)
     k = pend if complete_all else rng.randrange(0, pend + 1)
+    st = {'count': c, 'complete': k}
+    if not complete_all and rng.random() < 0.2:
+      # suggest() straight away, with no update() call before it (after a restart: load() then suggest())
+      st = {'count': c, 'complete': 0, 'skip_update': True}
+      k = 0
     pend = pend - k + c
-    steps.append({'count': c, 'complete': k})
+    steps.append(st)
   return steps
 
 
